@@ -24,8 +24,9 @@ use crate::{
         curve_points::RP25519,
         ec_prime_field::Fp25519,
     },
+    error::{LengthError, UnwrapInfallible},
     secret_sharing::{
-        SharedValue, StdArray, Vectorizable,
+        BitDecomposed, SharedValue, StdArray, TransposeFrom, Vectorizable,
         replicated::{ReplicatedSecretSharing, semi_honest::AdditiveShare},
     },
 };
@@ -300,9 +301,262 @@ fn exec_rp(op: &str, args: &[&str]) -> String {
     }
 }
 
+// ------------------------------------------------------------------------------------------------
+// transposes: c09.tr <kind> <M> <N> <form> <left-hex> <right-hex|->
+
+fn from_raw<B: Serializable>(b: &[u8]) -> B {
+    B::deserialize(GenericArray::from_slice(b)).unwrap()
+}
+
+fn to_raw<B: Serializable>(b: &B) -> Vec<u8> {
+    let mut buf = GenericArray::<u8, B::Size>::default();
+    b.serialize(&mut buf);
+    buf.to_vec()
+}
+
+fn split_rows(h: &str, row_bytes: usize) -> Vec<Vec<u8>> {
+    unhex(h).chunks(row_bytes).map(<[u8]>::to_vec).collect()
+}
+
+fn show_pairs(res: Result<Vec<(Vec<u8>, Vec<u8>)>, LengthError>) -> String {
+    match res {
+        Ok(v) => {
+            let l: Vec<u8> = v.iter().flat_map(|p| p.0.clone()).collect();
+            let r: Vec<u8> = v.iter().flat_map(|p| p.1.clone()).collect();
+            format!("{} {}", hex(&l), hex(&r))
+        }
+        Err(e) => format!("err {} {}", e.expected, e.actual),
+    }
+}
+
+fn to_arr<T, const N: usize>(v: Vec<T>) -> [T; N] {
+    v.try_into().ok().expect("harness: wrong number of source rows for the array form")
+}
+
+macro_rules! tr_ba_to_ba {
+    ($dst:ty, $src:ty, $m:expr, $n:expr, $form:expr, $l:expr) => {{
+        let rows: Vec<$src> = split_rows($l, $n / 8).iter().map(|r| from_raw::<$src>(r)).collect();
+        let src: [$src; $m] = to_arr(rows);
+        let out: Vec<$dst> = match $form {
+            "arr" => {
+                let mut dst = [<$dst>::ZERO; $n];
+                dst.transpose_from(&src).unwrap_infallible();
+                dst.to_vec()
+            }
+            "shim" => {
+                let mut dst: Vec<$dst> = vec![];
+                dst.transpose_from(&src).unwrap_infallible();
+                dst
+            }
+            f => panic!("harness: unknown form {f}"),
+        };
+        hex(&out.iter().flat_map(|b| to_raw(b)).collect::<Vec<u8>>())
+    }};
+}
+
+fn bool_shares<A, const N: usize>(l: &str, r: &str) -> Vec<AdditiveShare<Boolean, N>>
+where
+    Boolean: Vectorizable<N, Array = A>,
+    A: Serializable,
+{
+    split_rows(l, N / 8)
+        .iter()
+        .zip(split_rows(r, N / 8).iter())
+        .map(|(a, b)| AdditiveShare::<Boolean, N>::new_arr(from_raw::<A>(a), from_raw::<A>(b)))
+        .collect()
+}
+
+fn ba_shares<B>(l: &str, r: &str, row_bytes: usize) -> Vec<AdditiveShare<B>>
+where
+    B: SharedValue + Vectorizable<1> + Serializable,
+{
+    split_rows(l, row_bytes)
+        .iter()
+        .zip(split_rows(r, row_bytes).iter())
+        .map(|(a, b)| AdditiveShare::<B>::new(from_raw::<B>(a), from_raw::<B>(b)))
+        .collect()
+}
+
+fn raw_bool<A, const N: usize>(v: &[AdditiveShare<Boolean, N>]) -> Vec<(Vec<u8>, Vec<u8>)>
+where
+    Boolean: Vectorizable<N, Array = A>,
+    A: Serializable,
+{
+    v.iter().map(|s| (to_raw(s.left_arr()), to_raw(s.right_arr()))).collect()
+}
+
+fn raw_ba<B>(v: &[AdditiveShare<B>]) -> Vec<(Vec<u8>, Vec<u8>)>
+where
+    B: SharedValue + Vectorizable<1> + Serializable,
+{
+    v.iter().map(|s| (to_raw(&s.left()), to_raw(&s.right()))).collect()
+}
+
+macro_rules! tr_bool_to_ba {
+    ($dst:ty, $srcarr:ty, $m:expr, $n:expr, $form:expr, $l:expr, $r:expr) => {{
+        let src: Vec<AdditiveShare<Boolean, $n>> = bool_shares::<$srcarr, $n>($l, $r);
+        let res: Result<Vec<AdditiveShare<$dst>>, LengthError> = match $form {
+            "arr" => {
+                let src: [AdditiveShare<Boolean, $n>; $m] = to_arr(src);
+                let mut dst: [AdditiveShare<$dst>; $n] = std::array::from_fn(|_| AdditiveShare::<$dst>::ZERO);
+                dst.transpose_from(&src).unwrap_infallible();
+                Ok(dst.to_vec())
+            }
+            "shim" => {
+                let bd = BitDecomposed::new(src);
+                let mut dst: Vec<AdditiveShare<$dst>> = vec![];
+                dst.transpose_from(&bd).map(|()| dst)
+            }
+            f => panic!("harness: unknown form {f}"),
+        };
+        show_pairs(res.map(|v| raw_ba(&v)))
+    }};
+}
+
+macro_rules! tr_ba_to_bool {
+    ($src:ty, $dstarr:ty, $m:expr, $n:expr, $form:expr, $l:expr, $r:expr) => {{
+        let src: Vec<AdditiveShare<$src>> = ba_shares::<$src>($l, $r, $n / 8);
+        let src: [AdditiveShare<$src>; $m] = to_arr(src);
+        let out: Vec<AdditiveShare<Boolean, $m>> = match $form {
+            "arr" => {
+                let mut dst: [AdditiveShare<Boolean, $m>; $n] = std::array::from_fn(|_| AdditiveShare::<Boolean, $m>::ZERO);
+                dst.transpose_from(&src).unwrap_infallible();
+                dst.to_vec()
+            }
+            "shim" => {
+                let mut dst: BitDecomposed<AdditiveShare<Boolean, $m>> = BitDecomposed::default();
+                dst.transpose_from(&src).unwrap_infallible();
+                dst.iter().cloned().collect()
+            }
+            f => panic!("harness: unknown form {f}"),
+        };
+        show_pairs(Ok(raw_bool::<$dstarr, $m>(&out)))
+    }};
+}
+
+macro_rules! tr_ba_fn_to_bool {
+    ($src:ty, $dstarr:ty, $m:expr, $n:expr, $form:expr, $l:expr, $r:expr) => {{
+        let src: Vec<AdditiveShare<$src>> = ba_shares::<$src>($l, $r, $n / 8);
+        assert_eq!(src.len(), $m, "harness: wrong number of source rows");
+        let f = |i: usize| src[i].clone();
+        let fr: &dyn Fn(usize) -> AdditiveShare<$src> = &f;
+        let out: Vec<AdditiveShare<Boolean, $m>> = match $form {
+            "arr" => {
+                let mut dst: [AdditiveShare<Boolean, $m>; $n] = std::array::from_fn(|_| AdditiveShare::<Boolean, $m>::ZERO);
+                dst.transpose_from(fr).unwrap_infallible();
+                dst.to_vec()
+            }
+            "shim" => {
+                let mut dst: BitDecomposed<AdditiveShare<Boolean, $m>> = BitDecomposed::default();
+                dst.transpose_from(fr).unwrap_infallible();
+                dst.iter().cloned().collect()
+            }
+            f => panic!("harness: unknown form {f}"),
+        };
+        show_pairs(Ok(raw_bool::<$dstarr, $m>(&out)))
+    }};
+}
+
+macro_rules! tr_ba_to_bool_small {
+    ($src:ty, $dstarr:ty, $m:expr, $n:expr, $form:expr, $l:expr, $r:expr) => {{
+        let src: Vec<AdditiveShare<$src>> = ba_shares::<$src>($l, $r, ($n + 7) / 8);
+        let res: Result<Vec<AdditiveShare<Boolean, $m>>, LengthError> = match $form {
+            "arr" => {
+                let src: [AdditiveShare<$src>; $m] = to_arr(src);
+                let mut dst: [AdditiveShare<Boolean, $m>; ($n + 7) / 8 * 8] =
+                    std::array::from_fn(|_| AdditiveShare::<Boolean, $m>::ZERO);
+                dst.transpose_from(&src).unwrap_infallible();
+                Ok(dst.to_vec())
+            }
+            "shim" => {
+                let src: [AdditiveShare<$src>; $m] = to_arr(src);
+                let mut dst: BitDecomposed<AdditiveShare<Boolean, $m>> = BitDecomposed::default();
+                dst.transpose_from(&src).unwrap_infallible();
+                Ok(dst.iter().cloned().collect())
+            }
+            "shimvec" => {
+                let mut dst: BitDecomposed<AdditiveShare<Boolean, $m>> = BitDecomposed::default();
+                dst.transpose_from(&src).map(|()| dst.iter().cloned().collect())
+            }
+            f => panic!("harness: unknown form {f}"),
+        };
+        show_pairs(res.map(|v| raw_bool::<$dstarr, $m>(&v)))
+    }};
+}
+
+macro_rules! tr_aggregation {
+    ($dstarr:ty, $srcarr:ty, $m:expr, $n:expr, $bits:expr, $l:expr, $r:expr) => {{
+        let b: usize = $bits.parse().unwrap();
+        let all: Vec<AdditiveShare<Boolean, $n>> = bool_shares::<$srcarr, $n>($l, $r);
+        assert_eq!(all.len(), b * $m, "harness: wrong amount of data");
+        // request layout: bit-major (b matrices of M rows); the source is indexed [row][bit]
+        let src: Vec<BitDecomposed<AdditiveShare<Boolean, $n>>> =
+            (0..$m).map(|row| BitDecomposed::new((0..b).map(|bit| all[bit * $m + row].clone()))).collect();
+        let mut dst: Vec<BitDecomposed<AdditiveShare<Boolean, $m>>> = vec![];
+        dst.transpose_from(src.as_slice()).unwrap_infallible();
+        assert_eq!(dst.len(), $n);
+        let mut out: Vec<AdditiveShare<Boolean, $m>> = vec![];
+        for bit in 0..b {
+            for row in 0..$n {
+                out.push(dst[row][bit].clone());
+            }
+        }
+        show_pairs(Ok(raw_bool::<$dstarr, $m>(&out)))
+    }};
+}
+
+/// The impls the harness can drive — must mirror the `impl_transpose_*!` invocations of transpose.rs
+/// (the model's list is regenerated from the source; `c09.tr-list` compares the two).
+const TR_IMPLS: &[(&str, usize, usize)] = &[
+    ("ba_to_ba", 64, 64), ("ba_to_ba", 256, 256),
+    ("bool_to_ba", 256, 256), ("bool_to_ba_small", 8, 256), ("bool_to_ba", 16, 256), ("bool_to_ba", 16, 32),
+    ("bool_to_ba", 32, 256), ("bool_to_ba_small", 8, 32), ("bool_to_ba_small", 32, 32), ("bool_to_ba_small", 8, 8),
+    ("bool_to_ba", 16, 16), ("bool_to_ba_small", 8, 16),
+    ("ba_to_bool", 256, 64), ("ba_fn_to_bool", 256, 64),
+    ("ba_to_bool_small", 256, 32), ("ba_to_bool_small", 256, 16), ("ba_to_bool_small", 256, 8),
+    ("ba_to_bool_small", 256, 5), ("ba_to_bool_small", 256, 3), ("ba_to_bool_small", 32, 8), ("ba_to_bool_small", 32, 3),
+    ("ba_to_bool", 32, 32), ("ba_to_bool", 32, 16), ("ba_to_bool_small", 16, 8),
+    ("aggregation_transpose", 256, 256), ("aggregation_transpose", 32, 256),
+];
+
+fn exec_tr(a: &[&str]) -> String {
+    let (kind, m, n, form, l, r) = (a[0], a[1], a[2], a[3], a[4], a[5]);
+    match (kind, m, n) {
+        ("ba_to_ba", "64", "64") => tr_ba_to_ba!(BA64, BA64, 64, 64, form, l),
+        ("ba_to_ba", "256", "256") => tr_ba_to_ba!(BA256, BA256, 256, 256, form, l),
+        ("bool_to_ba", "256", "256") => tr_bool_to_ba!(BA256, BA256, 256, 256, form, l, r),
+        ("bool_to_ba", "16", "256") => tr_bool_to_ba!(BA16, BA256, 16, 256, form, l, r),
+        ("bool_to_ba", "16", "32") => tr_bool_to_ba!(BA16, BA32, 16, 32, form, l, r),
+        ("bool_to_ba", "32", "256") => tr_bool_to_ba!(BA32, BA256, 32, 256, form, l, r),
+        ("bool_to_ba", "16", "16") => tr_bool_to_ba!(BA16, BA16, 16, 16, form, l, r),
+        ("bool_to_ba_small", "8", "256") => tr_bool_to_ba!(BA8, BA256, 8, 256, form, l, r),
+        ("bool_to_ba_small", "8", "32") => tr_bool_to_ba!(BA8, BA32, 8, 32, form, l, r),
+        ("bool_to_ba_small", "32", "32") => tr_bool_to_ba!(BA32, BA32, 32, 32, form, l, r),
+        ("bool_to_ba_small", "8", "8") => tr_bool_to_ba!(BA8, BA8, 8, 8, form, l, r),
+        ("bool_to_ba_small", "8", "16") => tr_bool_to_ba!(BA8, BA16, 8, 16, form, l, r),
+        ("ba_to_bool", "256", "64") => tr_ba_to_bool!(BA64, BA256, 256, 64, form, l, r),
+        ("ba_to_bool", "32", "32") => tr_ba_to_bool!(BA32, BA32, 32, 32, form, l, r),
+        ("ba_to_bool", "32", "16") => tr_ba_to_bool!(BA16, BA32, 32, 16, form, l, r),
+        ("ba_fn_to_bool", "256", "64") => tr_ba_fn_to_bool!(BA64, BA256, 256, 64, form, l, r),
+        ("ba_to_bool_small", "256", "32") => tr_ba_to_bool_small!(BA32, BA256, 256, 32, form, l, r),
+        ("ba_to_bool_small", "256", "16") => tr_ba_to_bool_small!(BA16, BA256, 256, 16, form, l, r),
+        ("ba_to_bool_small", "256", "8") => tr_ba_to_bool_small!(BA8, BA256, 256, 8, form, l, r),
+        ("ba_to_bool_small", "256", "5") => tr_ba_to_bool_small!(BA5, BA256, 256, 5, form, l, r),
+        ("ba_to_bool_small", "256", "3") => tr_ba_to_bool_small!(BA3, BA256, 256, 3, form, l, r),
+        ("ba_to_bool_small", "32", "8") => tr_ba_to_bool_small!(BA8, BA32, 32, 8, form, l, r),
+        ("ba_to_bool_small", "32", "3") => tr_ba_to_bool_small!(BA3, BA32, 32, 3, form, l, r),
+        ("ba_to_bool_small", "16", "8") => tr_ba_to_bool_small!(BA8, BA16, 16, 8, form, l, r),
+        ("aggregation_transpose", "256", "256") => tr_aggregation!(BA256, BA256, 256, 256, form, l, r),
+        ("aggregation_transpose", "32", "256") => tr_aggregation!(BA32, BA256, 32, 256, form, l, r),
+        _ => panic!("harness: no such transpose impl {kind} {m}x{n}"),
+    }
+}
+
 pub fn exec(req: &str) -> String {
     let t: Vec<&str> = req.split(' ').collect();
     match t[0] {
+        "c09.tr" => exec_tr(&t[1..]),
+        "c09.tr-list" => TR_IMPLS.iter().map(|(k, m, n)| format!("{k}:{m}x{n}")).collect::<Vec<_>>().join(","),
         "c09.blk" | "c09.de" | "c09.en" => exec_serde(t[0], t[1], &t[2..]),
         "c09.rp" => exec_rp(t[1], &t[2..]),
         _ => panic!("harness: unknown request {req}"),
@@ -618,6 +872,116 @@ fn gen_rp(rng: &mut Rng, thorough: bool, out: &mut Vec<String>) {
             push(out, &b);
         }
     }
+}
+
+/// source matrices: all-zero, all-ones, every one-hot position (small shapes) or a spread of one-hot
+/// positions incl. the corners (large shapes), random.
+fn gen_transpose(rng: &mut Rng, thorough: bool) -> Vec<String> {
+    let mut out = vec!["c09.tr-list".to_string()];
+    for &(kind, m, n) in TR_IMPLS {
+        let row_bytes = (n + 7) / 8;
+        let mask_row = |row: &mut Vec<u8>| {
+            if n % 8 != 0 {
+                let last = row.len() - 1;
+                row[last] &= (1u8 << (n % 8)) - 1;
+            }
+        };
+        let mut mats: Vec<Vec<u8>> = vec![];
+        mats.push(vec![0u8; m * row_bytes]);
+        let mut ones = vec![];
+        for _ in 0..m {
+            let mut row = vec![0xffu8; row_bytes];
+            mask_row(&mut row);
+            ones.extend(row);
+        }
+        mats.push(ones);
+        let mut hot: Vec<(usize, usize)> = vec![];
+        if m * n <= 512 {
+            for i in 0..m {
+                for j in 0..n {
+                    hot.push((i, j));
+                }
+            }
+        } else {
+            let edge = |d: usize| -> Vec<usize> {
+                if thorough { vec![0, 1, 7, 8, 15, 16, d / 2, d - 2, d - 1] } else { vec![0, 7, 8, 16, d - 1] }
+            };
+            for &i in &edge(m) {
+                for &j in &edge(n) {
+                    if i < m && j < n {
+                        hot.push((i, j));
+                    }
+                }
+            }
+            for _ in 0..(if thorough { 200 } else { 8 }) {
+                hot.push((rng.usize_below(m), rng.usize_below(n)));
+            }
+            hot.sort_unstable();
+            hot.dedup();
+        }
+        for (i, j) in hot {
+            let mut mat = vec![0u8; m * row_bytes];
+            mat[i * row_bytes + j / 8] |= 1 << (j % 8);
+            mats.push(mat);
+        }
+        for _ in 0..(if thorough { 40 } else { 4 }) {
+            let mut mat = vec![];
+            for _ in 0..m {
+                let mut row = rng.bytes(row_bytes);
+                mask_row(&mut row);
+                mat.extend(row);
+            }
+            mats.push(mat);
+        }
+        let forms: &[&str] = match kind {
+            "ba_to_bool_small" => &["arr", "shim", "shimvec"],
+            "aggregation_transpose" => &["1", "2"],
+            _ => &["arr", "shim"],
+        };
+        for (idx, mat) in mats.iter().enumerate() {
+            // the other share: a different matrix (the next one), so left/right mix-ups are visible
+            let other = &mats[(idx + 1) % mats.len()];
+            for form in forms {
+                if kind == "aggregation_transpose" {
+                    let b: usize = form.parse().unwrap();
+                    if idx % 3 != 0 && m * n > 512 && !thorough {
+                        continue;
+                    }
+                    let l: Vec<u8> = (0..b).flat_map(|k| mats[(idx + k) % mats.len()].clone()).collect();
+                    let r: Vec<u8> = (0..b).flat_map(|k| mats[(idx + k + 1) % mats.len()].clone()).collect();
+                    out.push(format!("c09.tr {kind} {m} {n} {form} {} {}", hex(&l), hex(&r)));
+                } else if kind == "ba_to_ba" {
+                    out.push(format!("c09.tr {kind} {m} {n} {form} {} -", hex(mat)));
+                } else {
+                    out.push(format!("c09.tr {kind} {m} {n} {form} {} {}", hex(mat), hex(other)));
+                }
+            }
+        }
+        // LengthErrors of the fallible shims: sources that are too short / too long / empty
+        let fallible = match kind {
+            "bool_to_ba" | "bool_to_ba_small" => Some("shim"),
+            "ba_to_bool_small" => Some("shimvec"),
+            _ => None,
+        };
+        if let Some(form) = fallible {
+            let mut lens = vec![0usize, 1, m - 1];
+            if m < 256 || form == "shimvec" {
+                lens.push(m + 1);
+                lens.push(2 * m);
+            }
+            for len in lens {
+                let mat = &mats[mats.len() - 1];
+                let data: Vec<u8> = mat.iter().cycle().take(len * row_bytes).copied().collect();
+                out.push(format!("c09.tr {kind} {m} {n} {form} {} {}", hex(&data), hex(&data)));
+            }
+        }
+    }
+    out
+}
+
+#[test]
+fn verif_c09_transpose() {
+    run_suite("c09_transpose", gen_transpose, exec);
 }
 
 #[test]
